@@ -1,6 +1,7 @@
 import LeptosModel.Proofs.HydrateState
 import LeptosModel.Proofs.HydrateLoad
 import LeptosModel.Proofs.HydrateInitial
+import LeptosModel.Proofs.HydrateSettle
 /-!
 # C05 — hydration adopts server-rendered HTML without mismatch
 
@@ -18,9 +19,11 @@ optional attributes, tuples nested arbitrarily (= fragments), `Option`, `Either`
 | `C05_load_realises`                    | proved (every parsed forest with distinct attribute names per element) |
 | `C05_hydrate_parsed`                   | proved (composition print → parse → load → hydrate, all `wfV` views)  |
 | `C05_state_eq_build_state_mod_ids`     | proved (every DOM, every cursor: *if* the walk succeeds)              |
-| `C05_initial_dom_like_csr_partial`     | proved (all `wfV` views with plain attributes and no empty string: DOM after hydration = client-built DOM, comments aside); `…_full_false` |
-| `C05_then_like_csr_full`               | **false of the code** (F-C05-1): `C05_empty_text_witness`, `C05_then_like_csr_full_false` |
-| `C05_then_like_csr_partial_stmt`       | OPEN (statement only; exercised by the correspondence run on every case; instances below by `decide`) |
+| `C05_walk_commutes_with_writes`        | proved (the `set_text` of the repaired `hydrate` does not disturb the walk)  |
+| `C05_initial_dom_like_csr`             | proved (all `wfV` views with plain attributes, `""` included: DOM after hydration = client-built DOM, comments aside); `…_partial` = the same about the DOM before the write, `C05_initial_dom_old_witness` |
+| `C05_then_like_csr_stmt`               | OPEN, no exclusion (statement only; exercised by the correspondence run on every case; instances below by `decide`) |
+| `C05_empty_text_witness`, `…_mid`, `C05_then_like_csr_old_false` | regression witnesses of F-C05-1 (repaired: `fix: hydrating an empty string …`) |
+| `C05_fragment_parent_witness`          | regression witness of F-C05-3 (repaired: `fix: an empty StaticVec hydrated as the first child …`) |
 | `C05_raw_text_child_witness`           | F-C05-2, outside the `wfV` grammar: a hydrated `<textarea>`/`<style>`/`<script>`/`<noscript>` keeps no child state |
 
 Streamed forms (remark, not a theorem of this file): for a view without asynchronous parts the
@@ -102,33 +105,37 @@ theorem C05_state_eq_build_state_mod_ids (v : View) (hw : wfH v = true) (d : Dom
     (d' : Dom) (h : hydrate d v c = .ok o) : nshape o.state = nshape (build v d').2 :=
   shape_hyd d v c o d' hw h
 
-/-! ## 4. after hydration the view shows what a client-built one shows — except for `""` -/
+/-! ## 4. after hydration the view shows what a client-built one shows -/
 
-/-- the full statement about the DOM right after hydration (hydration does not touch the DOM, so this
-is the DOM the browser built from the SSR string): comments aside, it is the DOM of a client-side
-build of the same view -/
-def C05_initial_dom_like_csr_full : Prop :=
-  ∀ v : View, wfV [[]] v = true → plainV v = true → stripL (toDomTrees (domOf v)) = stripL (render v)
+/-- **the walk commutes with its writes**: the repaired `hydrate` writes `""` into the adopted
+placeholder of an empty string *during* the walk; the walk reads node kinds, child lists and parents
+only, which `set_text` leaves alone, so on the DOM with all writes applied (and on every DOM in
+between) the walk returns what it returns on the untouched DOM.  This is what allows the model to
+perform the walk first (`hydrate`) and the writes afterwards (`settle`). -/
+theorem C05_walk_commutes_with_writes (d : Dom) (st : State) (v : View) (c : Cur) :
+    hydrate (settle st d) v c = hydrate d v c :=
+  hydrate_congr (settle_sameShape st d) v c
 
-/-- **initial DOM like CSR** (partial: no empty string): for every view of the grammar with plain
-attributes and without an empty string, what the browser builds from the SSR string shows — marker
-comments removed, adjacent text merged — exactly what `build` + `mount` of the same view shows
-(`render`, the specification side of C03): the same elements, the same attributes in the same order,
-the same text. -/
+/-- **DOM after hydration like CSR** (all views of the grammar with plain attributes — the empty
+string included, since the repair of F-C05-1): the children of the root after hydration (`domA`: the
+parsed nodes, every string view's text node holding the string itself) show — marker comments
+removed, adjacent text merged — exactly what `build` + `mount` of the same view shows (`render`, the
+specification side of C03): the same elements, the same attributes in the same order, the same text.
+(That the model's DOM after `settle` serialises to `domA` is evaluated by the driver on every case.) -/
+theorem C05_initial_dom_like_csr (v : View) (hw : wfV [[]] v = true) (hp : plainV v = true) :
+    stripL (domA v .firstChild) = stripL (render v) := by
+  have := initialA_view v [[]] .firstChild [] hw hp
+  simpa [stripL_eq_foldr] using this
+
+/-- the same about the DOM the browser builds from the SSR string, i.e. **before** the write of the
+repair (= what the code left behind before the repair): only without an empty string -/
 theorem C05_initial_dom_like_csr_partial (v : View) (hw : wfV [[]] v = true) (hp : plainV v = true)
     (hne : hasEmptyText v = false) : stripL (toDomTrees (domOf v)) = stripL (render v) := by
   have h : "" ∉ texts v := by simpa [hasEmptyText] using hne
   have := initial_view v [[]] .firstChild [] hw hp h
   simpa [stripL_eq_foldr, domOf] using this
 
-/-- the hypothesis cannot be dropped (F-C05-1): the view `""` shows `" "` after hydration and nothing
-when built on the client -/
-theorem C05_initial_dom_like_csr_full_false : ¬ C05_initial_dom_like_csr_full := by
-  intro h
-  have := h (.text "") (by decide) (by decide)
-  simp [domOf, dom, textNode, toDomTrees, toDomTree, render, stripL, stripT, pushText] at this
-
-/-! ## 5. … and keeps behaving like one under rebuilds — refuted for `""`, otherwise OPEN -/
+/-! ## 5. … and keeps behaving like one under rebuilds -/
 
 /- `plainV` (Proofs/HydrateInitial.lean): views whose attributes are plain (`String`, `Option<String>`,
 `bool`).  Class and style values are normalised differently by the SSR printer (`trim`, `name:value;`)
@@ -139,35 +146,13 @@ def Comparable (a b : View) : Prop :=
   (∃ ty, HasTy a ty ∧ HasTy b ty) ∧ wfV [[]] a = true ∧ wfV [[]] b = true ∧
     plainV a = true ∧ plainV b = true
 
-/-- the full statement: SSR of `a`, parsed, hydrated with `a`, then rebuilt with any `b` of the same
-type shows the same elements, attributes and text (comments aside) as `a` built on the client and
-rebuilt with `b` -/
-def C05_then_like_csr_full : Prop :=
+/-- **then like CSR** — OPEN (stated, not proved; no exclusion any more since the repair of
+F-C05-1): SSR of `a`, parsed, hydrated with `a`, then rebuilt with any `b` of the same type shows the
+same elements, attributes and text (comments aside) as `a` built on the client and rebuilt with `b`.
+The correspondence run evaluates it on every generated pair (model and real code); the instances
+below are kernel-evaluated. -/
+def C05_then_like_csr_stmt : Prop :=
   ∀ a b : View, Comparable a b → likeCsr (domOf a) a b = true
-
-/-- **F-C05-1** (kernel-evaluated): the view `""` (a `String`).  The server renders `" "`, the
-browser makes a text node `" "`, hydration adopts it and retains `""`; a rebuild with `""` compares
-equal and leaves the node alone: the hydrated DOM shows `" "`, the client-built twin shows `""`. -/
-theorem C05_empty_text_witness :
-    Comparable (.text "") (.text "") ∧
-      toHtml (.text "") = [' '] ∧
-      (runHydrated (domOf (.text "")) (.text "") (.text "")).kids.map (treesBeq [.text " "]) = some true ∧
-      (runCsr (.text "") (.text "")).map (treesBeq [.text ""]) = some true ∧
-      likeCsr (domOf (.text "")) (.text "") (.text "") = false := by
-  refine ⟨⟨⟨.text, by decide, by decide⟩, by decide, by decide, by decide, by decide⟩, by decide,
-    by decide +kernel, by decide +kernel, by decide +kernel⟩
-
-theorem C05_then_like_csr_full_false : ¬ C05_then_like_csr_full := by
-  intro h
-  have := h (.text "") (.text "") C05_empty_text_witness.1
-  rw [C05_empty_text_witness.2.2.2.2] at this
-  cases this
-
-/-- the same defect in the middle of other text: `("a", "", "b")` shows `a b` after hydration where
-the client-built tree shows `ab` -/
-theorem C05_empty_text_witness_mid :
-    likeCsr (domOf (.tuple [.text "a", .text "", .text "b"])) (.tuple [.text "a", .text "", .text "b"])
-      (.tuple [.text "a", .text "", .text "b"]) = false := by decide +kernel
 
 /-- **F-C05-2** (kernel-evaluated; outside the grammar `wfV`, which has no raw-text elements): an
 element with `ESCAPE_CHILDREN = false` hydrates with `children: None` (html/element/mod.rs `hydrate`:
@@ -180,11 +165,68 @@ theorem C05_raw_text_child_witness :
       (Html.parse (toHtml a)).map (fun ts => likeCsr ts a a) = some true := by
   refine ⟨by decide +kernel, by decide +kernel, by decide +kernel⟩
 
-/-- the strongest statement expected to hold of the code (class `empty-text` excluded: no string of
-`a` is empty) — OPEN: stated, not proved; the correspondence run evaluates it on every generated pair
-(model and real code), and the instances below are kernel-evaluated -/
-def C05_then_like_csr_partial_stmt : Prop :=
-  ∀ a b : View, Comparable a b → hasEmptyText a = false → likeCsr (domOf a) a b = true
+/-! ## regression witnesses: what the code did before the repairs -/
+
+/-- the statement of §5 about the code before the repair of F-C05-1 -/
+def C05_then_like_csr_old : Prop :=
+  ∀ a b : View, Comparable a b → likeCsrOld (domOf a) a b = true
+
+/-- **F-C05-1 (repaired)** (kernel-evaluated): the view `""` (a `String`).  The server renders `" "`,
+the browser makes a text node `" "`, hydration adopts it and retains `""`.  Before the repair the node
+kept `" "` and a rebuild with `""` compared equal and left it alone: the hydrated DOM showed `" "`,
+the client-built twin `""`.  Now `hydrate` resets the node and both show `""`. -/
+theorem C05_empty_text_witness :
+    Comparable (.text "") (.text "") ∧
+      toHtml (.text "") = [' '] ∧
+      (runHydratedOld (domOf (.text "")) (.text "") (.text "")).kids.map (treesBeq [.text " "]) = some true ∧
+      (runHydrated (domOf (.text "")) (.text "") (.text "")).kids.map (treesBeq [.text ""]) = some true ∧
+      (runCsr (.text "") (.text "")).map (treesBeq [.text ""]) = some true ∧
+      likeCsrOld (domOf (.text "")) (.text "") (.text "") = false ∧
+      likeCsr (domOf (.text "")) (.text "") (.text "") = true := by
+  refine ⟨⟨⟨.text, by decide, by decide⟩, by decide, by decide, by decide, by decide⟩, by decide,
+    by decide +kernel, by decide +kernel, by decide +kernel, by decide +kernel, by decide +kernel⟩
+
+theorem C05_then_like_csr_old_false : ¬ C05_then_like_csr_old := by
+  intro h
+  have := h (.text "") (.text "") C05_empty_text_witness.1
+  rw [C05_empty_text_witness.2.2.2.2.2.1] at this
+  cases this
+
+/-- the same in the middle of other text: `("a", "", "b")` showed `a b` after hydration where the
+client-built tree shows `ab` -/
+theorem C05_empty_text_witness_mid :
+    likeCsrOld (domOf (.tuple [.text "a", .text "", .text "b"])) (.tuple [.text "a", .text "", .text "b"])
+      (.tuple [.text "a", .text "", .text "b"]) = false ∧
+    likeCsr (domOf (.tuple [.text "a", .text "", .text "b"])) (.tuple [.text "a", .text "", .text "b"])
+      (.tuple [.text "a", .text "", .text "b"]) = true := by
+  refine ⟨by decide +kernel, by decide +kernel⟩
+
+/-- before the repair the DOM after hydration was the parsed DOM, and `C05_initial_dom_like_csr_partial`
+needed its hypothesis: the view `""` showed `" "` where a client-built one shows nothing -/
+theorem C05_initial_dom_old_witness :
+    ¬ (∀ v : View, wfV [[]] v = true → plainV v = true → stripL (toDomTrees (domOf v)) = stripL (render v)) := by
+  intro h
+  have := h (.text "") (by decide) (by decide)
+  simp [domOf, dom, textNode, toDomTrees, toDomTree, render, stripL, stripT, pushText] at this
+
+/-- **F-C05-3 (repaired)** (kernel-evaluated): `<div>` with children `Fragment([])`, `<span>tail</span>`,
+hydrated, the fragment rebuilt with `[<span>x</span>]`.  `StaticVec::hydrate` recorded
+`cursor.current().parent_element()` as the parent of its items; with no item and the position still
+`FirstChild` the cursor is on the `<div>` itself, so that was the `<div>`'s parent and the rebuild
+mounted `<span>x</span>` next to the `<div>` instead of into it.  Now the cursor's node is taken while
+the position is `FirstChild`. -/
+theorem C05_fragment_parent_witness :
+    let x : View := .elem "span" [] (.tuple [.text "x"])
+    let tail : View := .elem "span" [] (.tuple [.text "tail"])
+    (Html.parse (toHtml (.elem "div" [] (.tuple [tail])))).map
+        (fun ts => (fragLikeCsr true ts "div" [] [] [x] [tail], fragLikeCsr false ts "div" [] [] [x] [tail])) =
+      some (false, true) ∧
+    -- unaffected: a non-empty fragment, or an empty one after a sibling
+    (Html.parse (toHtml (.elem "div" [] (.tuple [x, tail])))).map
+        (fun ts => fragLikeCsr true ts "div" [] [x] [x, x] [tail]) = some true ∧
+    (Html.parse (toHtml (.elem "div" [] (.tuple [tail])))).map
+        (fun ts => fragLikeCsr true ts "div" [tail] [] [x] []) = some true := by
+  refine ⟨by decide +kernel, by decide +kernel, by decide +kernel⟩
 
 /-! ## non-vacuity: the hypotheses are satisfiable and the conclusions bite
 
@@ -201,11 +243,12 @@ example : Comparable (exAdj "World") (exAdj "Bob") :=
   ⟨⟨.elem "p" [] (.tuple [.text, .text, .text]), by decide +kernel, by decide +kernel⟩, by decide +kernel, by decide +kernel, by decide +kernel, by decide +kernel⟩
 example : likeCsr (domOf (exAdj "World")) (exAdj "World") (exAdj "Bob") = true := by decide +kernel
 
-/-- the empty string: rendered as `" "`, adopted, and fine as soon as the rebuild changes it -/
+/-- the empty string: rendered as `" "`, adopted and reset to `""` -/
 example : wfV [[]] (.text "") = true := by decide +kernel
 example : domOf (.text "") = [.text [' ']] := by decide +kernel
 example : loadOK (domOf (.text "")) = true := by decide +kernel
 example : likeCsr (domOf (.text "")) (.text "") (.text "now") = true := by decide +kernel
+example : likeCsr (domOf (.text "")) (.text "") (.text "") = true := by decide +kernel
 example : hasEmptyText (.text "") = true := by decide +kernel
 
 /-- `Option`: none ↔ some between two strings -/
